@@ -214,6 +214,10 @@ func runC19(c *Ctx) {
 			if !types.Identical(last, types.Universe.Lookup("error").Type()) {
 				continue
 			}
+			// a function that builds a version: it sets the routes up (the process's own shutdown path is not one)
+			if !reachesInstr(fn, func(x ssa.Instruction) bool { return isCallTo(x, modPath+"/cmd/glyph.setupRoutes") }, 0, map[*ssa.Function]bool{}) {
+				continue
+			}
 			k := 0
 			eachInstr(fn, func(_ *ssa.BasicBlock, _ int, ins ssa.Instruction) {
 				cl, ok := ins.(*ssa.Call)
